@@ -617,6 +617,10 @@ class Sync:
             w = self.plain_write(n)
             if w is not None:
                 return ('store', w[0], self.const_bool(w[2]), SEQ_CST, n)
+        if (k == 'UnaryOperator' and n.get('opcode') in ('++', '--')) or k == 'CompoundAssignOperator':
+            fld = self.field(tu.kids(n)[0]) if tu.kids(n) else None
+            if fld is not None and not is_atomic_type(self.field_type(tu.kids(n)[0])):
+                return ('store', fld, None, SEQ_CST, n)        # ++member / member += x on a plain data member
         return None
 
 
